@@ -97,7 +97,8 @@ namespace GeographicLib {
 
   const char* const FixtureShared::alpha_ = "ABCD";
 
-  // S2: the convergence loses its hemisphere sign; D1: SetScale rescales _k0 but not the derived _nrho0
+  // S2: the convergence loses its hemisphere sign; D1: SetScale rescales _k0 but not the derived _nrho0;
+  // H2: y mixes a term scaled by _nrho0 with an unscaled one
   class FixtureConic {
   public:
     typedef Math::real real;
